@@ -17,6 +17,16 @@ CLAIMS = {
         design="6 C05",
         technique="explicit TLA+ spec + TLC model checking; TLC-generated behaviours replayed on the code and judged by TLC (trace validation)",
     ),
+    "C04": dict(
+        spec="FsData.tla / FsDataGen.tla / FsDataJudge.tla",
+        text="TLC model-checks the DML specification (bags of rows, three-valued predicates, true counts, bystander untouched) "
+        "exhaustively for small tables and the full predicate grammar, generates the transition cover and random histories, "
+        "replays each on real connections (status row, description names, rowcount, both tables read through a raw DuckDB "
+        "cursor after every statement) and judges every step with TLC against the specification; DDL status messages are "
+        "judged at every qualification level and spelling.",
+        design="6 C04",
+        technique="explicit TLA+ spec + TLC model checking; TLC-generated histories replayed on the code and judged by TLC (trace validation)",
+    ),
 }
 
 
